@@ -3,6 +3,7 @@
 package c09
 
 import (
+	"time"
 	"fmt"
 	"os"
 	"regexp"
@@ -115,4 +116,27 @@ func TestDevProbes(t *testing.T) {
 		r := gobatch.RunInterp(p)
 		fmt.Printf("== %s vet=%v\n   %s\n", e.Name(), gobatch.Vet(p), regexp.MustCompile(`\n`).ReplaceAllString(r.String(), " | "))
 	}
+}
+
+// TestDevHang regenerates the main-stream programs of one shard (same seed as the
+// driver: set VERIF_TIER/SEED/SHARD/NSHARDS) and reports those that do not finish.
+func TestDevHang(t *testing.T) {
+	if os.Getenv("C09_HANG") == "" {
+		return
+	}
+	gobatch.EvalTimeout = 20 * time.Second
+	seq := 0
+	rec.Check(t, rec.Scale(150, 1000), func(rt *rapid.T) {
+		seq++
+		p := Generate(rt, fmt.Sprintf("S%dN%d_", rec.Shard(), seq))
+		if gobatch.Vet(p) != nil {
+			return
+		}
+		t0 := time.Now()
+		res := gobatch.RunInterp(p)
+		if d := time.Since(t0); d > 5*time.Second || res.Err != "" {
+			fmt.Printf("SLOW/ERR case %d: %v %q\n", seq, d, res.Err)
+			os.WriteFile(fmt.Sprintf("/tmp/c09dev/hang-%d-%d.go", rec.Shard(), seq), p.Replay(), 0o644)
+		}
+	})
 }
